@@ -76,6 +76,8 @@ VECTORS = {
     "deg7": ([F(-1)] * 8 + [F(3, 2)] * 8, 7),
     "intknots": ([F(0)] * 4 + [F(2), F(5), F(5)] + [F(9)] * 4, 3),
     # exact rationals of large MAGNITUDE with ordinary spacing (time stamps): exact arithmetic only - as floats this input is ill-conditioned
+    # exact knots whose spacing (1) is below the resolution of a double at their magnitude (1e17): any detour through float64 merges or loses knots. Exact run only.
+    "beyond-double": ([F(10 ** 17)] * 3 + [F(10 ** 17 + 1), F(10 ** 17 + 2), F(10 ** 17 + 2), F(10 ** 17 + 4)] + [F(10 ** 17 + 5)] * 3, 2),
     "timestamps": ([F(1700000000)] * 3 + [F(1700000000) + F(1, 2), F(1700000001)] + [F(1700000002)] * 3, 2),          # integer-valued knots with non-unit spacing: also run as int / numpy.int64 knots
 }
 
@@ -241,6 +243,18 @@ def task_exact(vname):
                                 break
                         if not ok:
                             break
+                if ok and name == "split_join":
+                    # "equal to the mathematically exact result": every piece, and the re-joined curve, IS the original function on its interval
+                    for idx, cv in enumerate(re_):
+                        lo, hi = cv.knotvector.limits
+                        for s_ in range(0, 8):
+                            u = F(lo) + (F(hi) - F(lo)) * F(s_, 7)
+                            want = spec.curve_value(list(U), p, list(P), u, list(W) if rat else None)
+                            if cv(u) != want:
+                                ok, bad = False, ["piece %d at u=%s is %s, the curve is %s" % (idx, u, cv(u), want)]
+                                break
+                        if not ok:
+                            break
                 if ok and name == "fit":
                     Ut = [U[0]] * (p + 1) + [U[-1]] * (p + 1)
                     Gtt, Gts = spec.gram(Ut, p, Ut, p), spec.gram(Ut, p, U, p)
@@ -253,7 +267,7 @@ def task_exact(vname):
                               None if ok else dict(kind="c16.exact", vector=vname, op=name, rational=rat)))
                 ve = values(re_)
                 for rname, rconv, only in REPRESENTATIONS:
-                    if (only is not None and vname != only) or vname == "timestamps":
+                    if (only is not None and vname != only) or vname in ("timestamps", "beyond-double"):
                         continue
                     try:
                         rr = rf if rname == "float" else f(rconv, rat)
@@ -364,6 +378,7 @@ def task_int_data():
         inner = sorted(set(U))[1:-1]
         node_new = F(1) if 1 not in U else F(3)
         runs = {
+            "evaluate-only": lambda c: None,            # the curve as given: int control points (and weights) on Fraction knots evaluate to exact rationals
             "insert-one-int-node": lambda c: c.knot_insert([node_new]),
             "insert-one-fraction-node": lambda c: c.knot_insert([F(7, 3)]),
             "insert-two": lambda c: c.knot_insert([node_new, node_new]),
